@@ -282,11 +282,11 @@ func init() {
 						continue
 					}
 					readers := map[string]func() io.Reader{
-						"strings.Reader": func() io.Reader { return strings.NewReader(text) },
-						"one byte/Read":  func() io.Reader { return &oneByte{text} },
-						"data with EOF":  func() io.Reader { return &dataWithEOF{s: text} },
+						"strings.Reader":          func() io.Reader { return strings.NewReader(text) },
+						"one byte/Read":           func() io.Reader { return &oneByte{text} },
+						"data with EOF":           func() io.Reader { return &dataWithEOF{s: text} },
 						"zero-length reads first": func() io.Reader { return &zeroThenData{s: text, zeros: 3} },
-						"bytes.Buffer":   func() io.Reader { return bytes.NewBufferString(text) },
+						"bytes.Buffer":            func() io.Reader { return bytes.NewBufferString(text) },
 					}
 					for name, mk := range readers {
 						mk := mk
